@@ -16,7 +16,7 @@ from typing_extensions import Literal
 
 from spil.sid.sid import Sid
 from spil.sid.read.util import first
-from spil.conf import extension_alias  # type: ignore
+from spil.conf import extension_alias, search_symbols  # type: ignore
 from spil.sid.read.tools import unfold_search
 
 
@@ -81,7 +81,9 @@ class Finder:
         # shortcut if Sid is not a search
         # (an unapplied query or an extension alias as last value still need to be unfolded)
         sid = Sid(search_sid)
-        if sid and not sid.is_search() and not sid.string.count("?") and sid.get(sid.keytype) not in extension_alias:
+        # (search symbols are looked up in the given search: a query may have replaced them in the Sid, eg. "**")
+        is_search = sid.is_search() or any(symbol in str(search_sid) for symbol in search_symbols)
+        if sid and not is_search and not sid.string.count("?") and sid.get(sid.keytype) not in extension_alias:
             generator = self.do_find([sid], as_sid=as_sid)
         else:
             search_sids = unfold_search(search_sid)
